@@ -32,7 +32,7 @@ CLAIM = dict(
     "uint8/uint16/float64 incl. skimage's data-dependent branch (type_pure, type_neutral, type_roundtrip_u8), whole-pixel and "
     "inactive TranslationCorrection (trans_pure, trans_neutral, trans_is_shift, trans_inactive_identity), inactive DriftCorrection, "
     "RotationCorrection's own warp clip(astype(int)(anchor + R_inv (v - anchor))) in 2-D and 3-D (rot2_pure, rot3_pure, rot2_neutral, "
-    "rot3_neutral, rotcorr_quarter_turn_2d = np.rot90, rotcorr_quarter_turn_3d = np.rot90 in the planes (1,2),(2,0),(0,1)), "
+    "rot3_neutral; its quarter turns = np.rot90 are DarsiaProps.C09.rotcorr_quarter_turn_2d/3d), "
     "TransformationCorrection (transf_pure, transf_neutral) and the transparency of its per-object cache over any call history "
     "(transf_cache_transparent); concrete_workflow / concrete_neutral_series instantiate the workflow with these functions. Each "
     "model is tied EXACTLY to the code on integer / dyadic payloads (RotationCorrection with exactly representable matrices set on "
